@@ -194,14 +194,16 @@ class C01(Prop):
     level_note = 'Trusted: as C02–C05 and C07; that asyncio runs the sender/receiver tasks in one of the modelled orders is covered by the full-stack run only.'
     design_ref = '§5 C01'
     rule = ('3..12 concurrent interactions of the five models started by either side, payload sizes 0..4 fragments (data and metadata), fragment size none/64/100, message and byte-stream framing '
-            '(reads of 1..400 bytes), a quarter of the runs with a lease-honouring client whose requests wait for small grants (1..3) issued by the harness through the server\'s lease publisher, random delivery order between the two directions, publishers paced 1..3 elements per round, futures resolved late; non-trivial = at least one payload '
+            '(reads of 1..400 bytes), a quarter of the runs with a lease-honouring client whose requests wait for small grants (1..3) issued by the harness through the server\'s lease publisher, a fifth of the message-framing runs with client writes that take longer (45 ms of virtual time) than the client keepalive period (40 ms), so that the keepalive timer fires while the sender is inside a write, random delivery order between the two directions, publishers paced 1..3 elements per round, futures resolved late; non-trivial = at least one payload '
             'spanning several fragments while another interaction is active; distinct = distinct case seed; plus a reconnecting client (1..3 reconnects after EOF / transport error / while healthy, from the harness or from on_close) with a fragmented peer request or response left half-received on the first stream ids when the connection goes away (the caller may have cancelled): the requests and responses of the next connection must arrive exactly as sent')
     assumptions = []
 
     def cases(self, rng, tier):
         n = 400 if tier == 'quick' else 5000
         out = [{'seed': rng.getrandbits(40), 'tcp': rng.random() < 0.5, 'frag': rng.choice([None, 64, 64, 100]), 'n': rng.randint(3, 12),
-                'lease': rng.random() < 0.25} for _ in range(n)]
+                'lease': rng.random() < 0.25,
+                # the client's writes take longer than its keepalive period: the keepalive timer fires while the sender is inside a write
+                'slow_ka': rng.random() < 0.2} for _ in range(n)]
         # a reconnecting client: what the previous connection left half-received must not leak into the interactions of the next one
         for _ in range(80 if tier == 'quick' else 2000):
             out.append({'kind': 'reconnect', 'frag': 64, 'seed': rng.getrandbits(40), 'rounds': rng.randint(1, 3),
@@ -382,18 +384,33 @@ class C01(Prop):
                     lease_sub.append(subscriber)
             lease_kw_s, lease_kw_c = {'lease_publisher': LeasePub()}, {'honor_lease': True}
         server = RSocketServer(lk.ends[1], handler_factory=sides[1].handler_class(sides[0]), fragment_size_bytes=case['frag'], **lease_kw_s)
+        slow_ka = bool(case.get('slow_ka')) and not case['tcp']
+        if slow_ka:
+            lk.ends[0].send_delay_ms = 45
         client = RSocketClient(single_transport_provider(lk.ends[0]), handler_factory=sides[0].handler_class(sides[1]), fragment_size_bytes=case['frag'],
-                               keep_alive_period=timedelta(seconds=100000), max_lifetime_period=timedelta(seconds=1000000), **lease_kw_c)
+                               keep_alive_period=timedelta(milliseconds=40) if slow_ka else timedelta(seconds=100000), max_lifetime_period=timedelta(seconds=1000000), **lease_kw_c)
         await client.connect()
         eps = [client, server]
         await loop.settle()
+        if slow_ka:
+            await loop.advance(70)
         # SETUP must reach the server before it talks
         while await lk.deliver(0, rng):
             await loop.settle()
         todo = list(order)
         idle = 0
+        quiet = 0
         for rnd in range(6000):
             did = False
+            if slow_ka:
+                # virtual time passes: writes complete, keepalive periods elapse (keepalives keep the link busy for ever: the run ends a
+                # fixed number of rounds after the last application activity)
+                await loop.advance(15)
+                busy = (todo or any(sd.pending_futures for sd in sides) or not all(p.done or p.cancelled or p.credit == 0 for sd in sides for p in sd.publishers)
+                        or client._send_queue.qsize() > 1 or server._send_queue.qsize() > 1 or lk.pending(0) > 1 or lk.pending(1) > 1)
+                quiet = 0 if busy else quiet + 1
+                if quiet > 60:
+                    break
             if todo and rng.random() < 0.4:
                 side, p = todo.pop(0)
                 sides[side].start(eps[side], p)
